@@ -18,23 +18,28 @@ import (
 
 // pinFiles: property -> files (relative to the repository root) whose functions the property's model mirrors.
 var pinFiles = map[string][]string{
-	"C01": {"json.go"},
-	"C02": {"signing.go"},
-	"C03": {"event_builder.go", "eventV1.go", "eventV2.go", "eventV3.go"},
-	"C04": {"eventcrypto.go"},
-	"C05": {"redactevent.go", "eventV1.go:Redact", "eventV2.go:Redact", "eventV3.go:Redact"},
-	"C06": {"eventcrypto.go"},
+	// every non-generated Go file a property's anchors name (properties.jsonl) whose functions a model mirrors or relies on
+	"C01": {"json.go", "eventversion.go:CheckCanonicalJSON"},
+	"C02": {"signing.go", "json.go", "spec/base64.go"},
+	"C03": {"event_builder.go", "eventV1.go", "eventV2.go", "eventV3.go", "eventcrypto.go", "pdu.go"},
+	"C04": {"eventcrypto.go", "eventV1.go", "eventV2.go", "eventV3.go", "redactevent.go"},
+	"C05": {"redactevent.go", "eventV1.go:Redact", "eventV2.go:Redact", "eventV3.go:Redact", "eventcrypto.go", "eventversion.go:RedactEventJSON"},
+	"C06": {"eventcrypto.go", "redactevent.go", "keyring.go", "keys.go"},
 	"C07": {"eventauth.go", "eventcontent.go"},
 	"C08": {"eventauth.go", "eventcontent.go"},
-	"C09": {"eventauth.go", "stateresolutionv2.go:authAndApplyEvents", "stateresolution.go:resolveAuthBlock,resolveAndAddAuthBlocks"},
-	"C10": {"stateresolution.go", "stateresolutionv2.go", "stateresolutionv2heaps.go"},
-	"C11": {"stateresolution.go", "stateresolutionv2.go", "stateresolutionv2heaps.go"},
-	"C13": {"fclient/request.go"},
+	"C09": {"eventauth.go", "eventcontent.go", "event_builder.go", "stateresolutionv2.go:authAndApplyEvents", "stateresolution.go:resolveAuthBlock,resolveAndAddAuthBlocks"},
+	"C10": {"stateresolution.go", "stateresolutionv2.go", "stateresolutionv2heaps.go", "eventauth.go"},
+	"C11": {"stateresolution.go", "stateresolutionv2.go", "stateresolutionv2heaps.go", "authstate.go", "backfill.go", "load.go"},
+	"C12": {"keyring.go", "keys.go", "signing.go"},
+	"C13": {"fclient/request.go", "signing.go", "spec/servername.go"},
 	"C14": {"authstate.go", "authchain.go", "load.go", "backfill.go"},
 	"C15": {"handlejoin.go", "handleleave.go", "handleinvite.go", "invite.go", "performjoin.go"},
-	"C16": {"fclient/resolve.go", "fclient/well_known.go"},
-	"C17": {"spec/userid.go", "spec/roomid.go", "spec/servername.go", "spec/base64.go", "event.go"},
-	"C18": {"spec/senderid.go"},
+	"C16": {"fclient/resolve.go", "fclient/well_known.go", "fclient/client.go", "fclient/dnscache.go", "spec/servername.go"},
+	"C17": {"spec/userid.go", "spec/roomid.go", "spec/servername.go", "spec/senderid.go", "spec/base64.go", "event.go", "eventV2.go:CheckFields", "eventV1.go:CheckFields", "event_builder.go", "eventversion.go"},
+	"C18": {"spec/senderid.go", "eventV1.go", "eventV2.go", "eventV3.go", "event.go", "json.go", "signing.go", "eventcrypto.go", "eventauth.go", "eventcontent.go",
+		"eventversion.go", "stateresolutionv2.go", "keys.go", "fclient/request.go", "fclient/federationtypes.go"},
+	"C19": {"fclient/dnscache.go", "fclient/client.go", "keyring.go", "eventV2.go"},
+	"C20": {"tokens/tokens.go", "tokens/tokens_handlers.go"},
 }
 
 func pkgFor(p *Pkgs, file string) (*pkg, string) {
